@@ -20,6 +20,16 @@ NAME = "<insim::net::tokio_impl::websocket::WebsocketStream as tokio::io::async_
 
 def is_buf(o):
     x = strip_refs(o)
+    # a newtype around the buffer (`struct Pending(BytesMut)`): `self.buf.0` is the buffer
+    for _ in range(3):
+        if x[0] == "field" and x[3] in ("0",) and isinstance(x[1], tuple):
+            y = strip_refs(x[1])
+            while y[0] == "deref":
+                y = strip_refs(y[1])
+            if y[0] == "field":
+                x = y
+                continue
+        break
     return x[0] == "field" and x[3] == "buf"
 
 
